@@ -1,6 +1,7 @@
 package props
 
 import (
+	"bytes"
 	"encoding/json"
 	"fmt"
 	"net"
@@ -183,6 +184,43 @@ func c12Fault(w *world.World, r *world.Remote, el c12Elem) int64 {
 			return -1
 		}
 		r.C.Close()
+		return vrt.Cur().Now()
+	case strings.HasPrefix(el.Kind, "tcp-"):
+		// transport faults inside a message: "tcp-<fin|rst>-<midheader|midbody>@<state>"
+		var what, where string
+		var st int
+		parts := strings.Split(strings.TrimPrefix(el.Kind, "tcp-"), "@")
+		fmt.Sscanf(parts[1], "%d", &st)
+		ww := strings.Split(parts[0], "-")
+		what, where = ww[0], ww[1]
+		ok := true
+		switch st {
+		case 0:
+			_, ok = r.Expect(wire.TypeOpen)
+		case 1:
+			ok = reach(r, stOpenConfirm, 65002, 90)
+		case 2:
+			ok = reach(r, stEstablished, 65002, 90)
+		}
+		if !ok {
+			return -1
+		}
+		m := wire.Update(bytes.Repeat([]byte{7}, 32))
+		if st == 0 {
+			m = wire.Open(65002, 90, 0x0a000002)
+		}
+		cut := 7
+		if where == "midbody" {
+			cut = wire.HeaderLen + 8
+		}
+		r.Send(m[:cut])
+		if what == "fin" {
+			r.C.CloseWrite()
+			r.Deadline(3 * time.Second)
+			r.Drain()
+		} else {
+			r.C.Reset()
+		}
 		return vrt.Cur().Now()
 	}
 	return -1
@@ -459,6 +497,21 @@ func c12ErrKinds(full bool) []c12Elem {
 
 var c12NonDamp = []c12Elem{{Kind: "cease-rcv", Dir: "out"}, {Kind: "cease-sent", Dir: "in"}, {Kind: "fin", Dir: "out"}, {Kind: "delete-add"}, {Kind: "fin", Dir: "in"}, {Kind: "cease-rcv", Dir: "in"}}
 
+// c12Transport are transport faults inside a message (never damping).
+func c12Transport() []c12Elem {
+	var out []c12Elem
+	for _, what := range []string{"fin", "rst"} {
+		for _, where := range []string{"midheader", "midbody"} {
+			for st := 0; st < 3; st++ {
+				for _, dir := range []string{"out", "in"} {
+					out = append(out, c12Elem{Kind: fmt.Sprintf("tcp-%s-%s@%d", what, where, st), Dir: dir})
+				}
+			}
+		}
+	}
+	return out
+}
+
 func c12Eval(c *harness.Ctx, cs c12Case) {
 	w, e, o := c12Run(cs, nil, false)
 	rule, msg := basicVerdict(e)
@@ -555,6 +608,17 @@ func c12Check(c *harness.Ctx) {
 						return
 					}
 				}
+			}
+		}
+	}
+	// (1b) every transport fault inside a message, alone and after a protocol error: never a hold-down
+	for _, tf := range c12Transport() {
+		for _, passive := range []bool{false, true} {
+			if !run(c12Case{Elems: []c12Elem{tf}, Passive: passive}) {
+				return
+			}
+			if !run(c12Case{Elems: []c12Elem{{Kind: "sent-badopen", Dir: tf.Dir}, tf}, Passive: passive}) {
+				return
 			}
 		}
 	}
